@@ -57,6 +57,10 @@ func runC03(c *Ctx) {
 	R.Rule("C03.R1", "position table: for every (element, attribute) URL position of the property statement, with requireParseableURLs on, sanitizeAttrs routes the surviving attributes through the URL loop (linkable(element) is true) and inside it an attribute with that key is appended only across validURL(value)#1 == true")
 	R.Rule("C03.R2", "the value kept at a URL position is validURL's first result (or the src rewriter's result), never the original value")
 	R.Rule("C03.R3", "validURL acceptance: with URL checking on, every `return _, true` happens under url.Parse err == nil and one of: scheme registered ∧ (no custom policies ∨ a custom policy returned true); scheme matched by a registered scheme regexp; empty scheme ∧ allowRelativeURLs ∧ u.String() != \"\" — and the string returned is u.String() of that parse")
+	R.Rule("C03.R11", "validURL parses what it was given: the argument of url.Parse derives from the parameter only through TrimSpace, slicing/concatenation and CR/LF removal — no decoding or re-casing before the parse")
+	parsesWhatItWasGiven(c, "C03.R11")
+	R.Rule("C03.R10", "pattern builders stay in their lane: AllowURLSchemesMatching, AllowElementsMatching and the OnElementsMatching methods update (transitively) only the pattern tables, never an exact-name table")
+	patternBuildersStayInLane(c, "C03.R10", "registering a scheme pattern rewrites the exact-scheme table: a custom URL check registered for that scheme (AllowURLSchemeWithCustomPolicy, AllowDataURIImages) is silently replaced by \"allow every URL of the scheme\"")
 	R.Rule("C03.R9", "options survive lazy initialisation: an existing Policy is only ever updated field by field — no function stores a whole Policy value through a pointer it did not allocate (a `*p = Policy{…}` in init would reset every option set before)")
 	optionsSurviveInit(c, "C03.R9", "RequireParseableURLs / AllowRelativeURLs / RewriteSrc set before the first rule are lost and URL attributes are no longer checked")
 	R.Rule("C03.R4", "whitespace rejection: all three tests Contains(url, \" \"|\"\\t\"|\"\\n\") exist and acceptance implies none of them held unless the value has the data: prefix")
